@@ -672,3 +672,43 @@ Proof.
     assert (Hne : ps_spectators p <> []) by (rewrite Hss, Hsp; destruct nspec; [lia|discriminate]).
     exact (qs_spec _ _ _ _ HQS Hne).
 Qed.
+
+(* the same, together with the game (one ghost history for both statements) *)
+Theorem lockstep_host_broadcast_and_game :
+  forall (predict : Z -> Z), (forall x, predict (predict x) = predict x) -> predict 0 = 0 ->
+  forall ops n d kinds eps nspec p outs,
+  0 <= d -> d + 4 <= QLEN -> 0 < n -> Z.of_nat (length kinds) = n -> players_only kinds -> (0 < nspec)%nat ->
+  srun_in predict (session_start n 0 false d kinds eps nspec) ops = Ok (p, outs) ->
+  exists g gs, exec_outs 0 (game0 0) outs = Some g /\ QSg false 0 d p gs /\
+    all_spec_sends outs = map (fun f => (f, held_at gs f)) (zrange_from 0 (Z.to_nat (ps_next_spec p))) /\
+    0 <= ps_next_spec p /\ s_last_confirmed (ps_sync p) + 1 <= ps_next_spec p /\
+    (forall h hist low f, nth_error gs h = Some (hist, low) ->
+       0 <= f <= s_last_confirmed (ps_sync p) -> f < s_current (ps_sync p) ->
+       f < hlen hist /\ gvalL (g_hist g) f h = hval hist f).
+Proof.
+  intros predict Hi Hz ops n d kinds eps nspec p outs Hd Hcap Hn Hlen Hpl Hns H.
+  set (p0 := session_start n 0 false d kinds eps nspec) in *.
+  assert (Hsp : ps_spectators p0 = repeat true nspec) by reflexivity.
+  pose proof (QS_start_lockstep n d kinds eps nspec Hd Hcap Hn Hlen Hpl) as HQS0.
+  pose proof (TI_start predict Hi Hz n 0 d kinds eps nspec) as HTI0.
+  assert (HCI0 : CIl predict 0 p0 (game0 0)).
+  { split; [reflexivity|]. split; [apply JI_start; lia|]. split; [apply LKx_start|].
+    exists (repeat ([], 0) (Z.to_nat n)), d. split; [exact HQS0|exact HTI0]. }
+  destruct (lockstep_run_timeline_broadcast predict Hi Hz ops p0 _ (game0 0) 0 d HQS0 HCI0 HTI0)
+    as [E|(p' & outs' & gs & g & E1 & Ex & HQS & HCI & (HG & HGI & HPN) & _ & Hss & _ & Hmono & Hall)].
+  - rewrite Hsp. destruct nspec; [lia|discriminate].
+  - rewrite Hsp. destruct nspec; [lia|reflexivity].
+  - congruence.
+  - rewrite H in E1. injection E1 as <- <-. exists g, gs. split; [exact Ex|]. split; [exact HQS|].
+    change (ps_next_spec p0) with 0 in Hall, Hmono. rewrite Z.sub_0_r in Hall.
+    split; [exact Hall|].
+    assert (Hne : ps_spectators p <> []) by (rewrite Hss, Hsp; destruct nspec; [lia|discriminate]).
+    destruct (qs_spec _ _ _ _ HQS Hne) as (S1 & S2 & _). split; [exact S1|]. split; [exact S2|].
+    destruct HCI as (_ & HJ & (HLq & _) & _).
+    intros h hist low f Eg Hf Hfc.
+    pose proof (qs_qs _ _ _ _ HQS) as HQ. pose proof (QsI_length _ _ _ _ HQ) as Hlq.
+    destruct (nth_error_some_len (s_queues (ps_sync p)) gs h (hist, low) Hlq Eg) as (q & Eq).
+    rewrite Forall_forall in HLq. destruct (HLq q (nth_error_In _ _ Eq)) as (A & B & _).
+    pose proof (HPN h q (hist, low) Eq Eg B) as Hreach. cbn [fst] in Hreach.
+    split; [lia|]. apply (gq_known _ _ _ _ _ _ (HGI h q (hist, low) Eq Eg)); [lia|cbn [fst]; lia|left; exact A].
+Qed.
